@@ -166,7 +166,7 @@ def run(rep, br, proofs, rng, tier):
             for ch2 in alpha: lexcases.append(mk_case("lex.%02x%02x" % (ch, ch2), "lexenum", hexs(alpha), "4", hexs(bytes([ch, ch2]))))
     env = dict(os.environ)
     vlib.log("C05: %d cases" % len(cases))
-    impl, culprits = vlib.run_impl_robust(cases, batch=250, timeout=60 if tier == "quick" else 300)
+    impl, culprits = vlib.run_impl_robust(cases, batch=100, timeout=240 if tier == "quick" else 600)
     vlib.log("C05: implementation done, %d culprits" % len(culprits))
     fails, classes = [], {}
     wfcases = []
